@@ -123,7 +123,7 @@ class C09(vlib.Driver):
         self.exhaustive = True
         for cap in caps:
             alphabet = [("add", w) for w in range(1, cap + 1)] + [("sample", b) for b in range(1, cap + 1)] + [("clear",)]
-            for L in range(1, maxlen + 1):
+            for L in range(1, (maxlen if cap <= 3 else 4) + 1):   # cap 4 x length 5 alone is 17 k sequences
                 for seq in itertools.product(alphabet, repeat=L):
                     # prune: samples must be legal (b <= current len), clear not first; keeps the space exact
                     size, ok, ops = 0, True, []
